@@ -285,6 +285,39 @@ fn main() {
             }
         }
     }
+    // dense numeric grid: every grid value (numpool) as override value, as bump amount, as override followed by a bump of 1 and
+    // as a bump on top of an override of 7, for each of the seven numeric fields, and as index-addressed value / amount on
+    // every numeric component of each section; Distance likewise. A threshold inside the range separates two grid neighbours.
+    let mut s_grid = Stats::default();
+    {
+        let g32 = numpool::grid_u32();
+        let gall = numpool::grid_upto(u64::MAX as u128);
+        let genvs: Vec<&Env> = if quick { envs.iter().filter(|e| ["1.2.3-rc.4", "1!1.2.3a1.post2.dev3", "stdin-epoch"].contains(&e.start.name) && e.schema_name != "calver-base").collect() } else { envs.iter().collect() };
+        for env in genvs {
+            let mut cases: Vec<Vec<Op>> = vec![];
+            for f in [Field::Epoch, Field::Major, Field::Minor, Field::Patch, Field::PreNum, Field::Post, Field::Dev] {
+                for &g in &g32 {
+                    cases.push(vec![Op::Override(f.clone(), g)]);
+                    cases.push(vec![Op::Bump(f.clone(), g)]);
+                    cases.push(vec![Op::Override(f.clone(), g), Op::Bump(f.clone(), 1)]);
+                    cases.push(vec![Op::Override(f.clone(), 7), Op::Bump(f.clone(), g)]);
+                }
+            }
+            for &g in &g32 { cases.push(vec![Op::Distance(g)]); }
+            for (sec, comps) in [(Section::Core, &env.init.schema.core), (Section::ExtraCore, &env.init.schema.extra_core), (Section::Build, &env.init.schema.build)] {
+                for (i, c) in comps.iter().enumerate() {
+                    if matches!(c, RComp::Str(_)) { continue; }
+                    for g in &gall {
+                        cases.push(vec![Op::SecOverride(sec.clone(), i.to_string(), g.clone())]);
+                        cases.push(vec![Op::SecBump(sec.clone(), i.to_string(), Some(g.clone()))]);
+                    }
+                }
+            }
+            let st = cases.par_iter().map(|ops| { let mut st = Stats::default(); st.inc("grid_cases"); let order: Vec<usize> = (0..ops.len()).collect(); let _ = judge(&ctx, env, ops, &order, None, &mut st); st }).reduce(Stats::default, Stats::merge);
+            s_grid = s_grid.merge(st);
+        }
+    }
+    let s2 = s2.merge(s_grid);
     // chaining through --source stdin: B applied to the zerv-format output of A
     let mut s3 = Stats::default();
     for env in envs.iter().filter(|e| e.schema_name != "calver-base" || !quick) {
@@ -343,12 +376,12 @@ fn main() {
     }
     let all = total.merge(s2).merge(s3).merge(s4.clone());
     let mut cov = Coverage::default();
-    cov.states = all.get("subsets") + all.get("invalid_target_cases") + all.get("boundary_amount_cases") + all.get("chain_runs");
+    cov.states = all.get("subsets") + all.get("grid_cases") + all.get("invalid_target_cases") + all.get("boundary_amount_cases") + all.get("chain_runs");
     cov.transitions = all.get("runs") + all.get("chain_runs");
     cov.evaluations = cov.transitions;
     cov.traces_validated = cov.transitions;
     cov.distinct_nontrivial = all.get("model_ok");
-    cov.rule = format!("flag-instance alphabets of sizes {alpha_sizes:?} per (start version x schema) environment ({} environments: 9 start versions incl. a number-less beta pre-release x 4 schemas): every subset up to size 3 (2 for the literal-heavy schema in quick) run through the real clap parser + run_version_pipeline with --output-format zerv and compared (schema + vars) with R-BUMP; permutations: all orders for subsets up to size {} and the reversed order above; repetition: every pair of section operations (override/override, bump/bump, override/bump; same or different spelling) that denote one component, in both orders; invalid targets and boundary amounts enumerated per section; chaining: every single op, then every op set of size <= {} via --source stdin, model continued from the intermediate state. non-trivial = runs where the model predicts success and the full state is compared", envs.len(), if quick { 2 } else { 3 }, if quick { 1 } else { 2 });
+    cov.rule = format!("flag-instance alphabets of sizes {alpha_sizes:?} per (start version x schema) environment ({} environments: 9 start versions incl. a number-less beta pre-release x 4 schemas): every subset up to size 3 (2 for the literal-heavy schema in quick) run through the real clap parser + run_version_pipeline with --output-format zerv and compared (schema + vars) with R-BUMP; permutations: all orders for subsets up to size {} and the reversed order above; repetition: every pair of section operations (override/override, bump/bump, override/bump; same or different spelling) that denote one component, in both orders; invalid targets and boundary amounts enumerated per section; chaining: every single op, then every op set of size <= {} via --source stdin, model continued from the intermediate state. dense numeric grid (0..=300, neighbourhoods of 2^8..2^64 and 10^2..10^20) as override value / bump amount / override+bump for each of the 7 numeric fields, as --distance, and as index-addressed value / amount on every numeric component ({} grid cases). non-trivial = runs where the model predicts success and the full state is compared", envs.len(), if quick { 2 } else { 3 }, if quick { 1 } else { 2 }, all.get("grid_cases"));
     cov.exhaustive = true;
     cov.samples = vec![json!({"start":"1.2.3-rc.4","schema":"standard-base-prerelease-post-dev","argv":["--bump-major","--patch","3","--bump-extra-core=~1"]}), json!({"start":"stdin-u64max","schema":"ron-literals","argv":["--bump-major=2"]}), json!({"chain":["--bump-minor"],"then":["--core=0=4"]})];
     cov.set("clause_counts", all.to_json());
